@@ -450,8 +450,19 @@ class ForLoop:
         return self.fn.loop_blocks(self.head())
 
     def tail_blocks(self):
-        """Blocks reachable from the normal loop exit that are not part of the loop."""
-        return self.fn.reachable_blocks(self.exit) - self.blocks()
+        """Blocks reachable from the normal loop exit without going through the loop again
+        (blocks that only a `break` path reaches are therefore not part of the tail, even when an
+        enclosing loop leads back into this one)."""
+        body = self.blocks()
+        seen = set()
+        st = [self.exit]
+        while st:
+            x = st.pop()
+            if x in seen or x in body:
+                continue
+            seen.add(x)
+            st.extend(self.fn.succ(x))
+        return seen
 
     def iteration_paths(self, sym, env=None, assume=None):
         """Paths of one iteration: from the body entry until the next `next()` call, the loop
